@@ -2,7 +2,8 @@
 //
 // Three parts on the real code: (a) discovery datagrams (p2p/discover decodePacket / handlePacket),
 // (b) RLPx frames and the encryption handshake (p2p), (c) the aqua sub-protocol handler
-// (aqua.ProtocolManager.handleMsg, in worker subprocesses with a write-ahead case log).
+// (aqua.ProtocolManager.handleMsg, in worker subprocesses with a write-ahead case log), (d) block bodies
+// and receipts delivered by a peer against the headers that commit to them (aqua/downloader queue).
 package c17
 
 import (
@@ -55,6 +56,8 @@ func TestCheck(t *testing.T) {
 			replayHS(t, run, d)
 		case "sub":
 			replaySub(t, run, d)
+		case "queue":
+			replayQueue(run, d)
 		default:
 			ev.Broken("replay file without a known part")
 		}
@@ -116,6 +119,7 @@ func TestCheck(t *testing.T) {
 	part("disc", func() { runDisc(t, run, groups, deadline) })
 	part("rlpx", func() { runRLPx(run, deadline) })
 	part("hs", func() { runHS(run, deadline) })
+	part("queue", func() { runQueue(run) })
 	wg.Wait()
 	if stopProf != nil {
 		stopProf()
